@@ -27,15 +27,16 @@ def stepC07 (fields : List String) : Option String :=
         forceDot := f.getD 0 '0' == '1', fallbackDot := f.getD 1 '0' == '1', skipUnrec := f.getD 2 '0' == '1',
         single := f.getD 3 '0' == '1', multi := f.getD 4 '0' == '1', binary := f.getD 5 '0' == '1' }
       pure (showRoute (route a (← decodeText path)))
-  | ["newheader", style, flags, tmpl, cpr, con, lic] => do
-      -- `_create_new_header` with the default template or a pre-rendered text
+  | ["newheader", style, flags, tmpl, cpr, con, lic, bad] => do
+      -- `_create_new_header` with the default template or a pre-rendered text; `bad`: the licence values the real
+      -- parser rejects (the `parses` oracle)
       let render : RInfo → Text ←
         if tmpl == "default" then pure defaultRender
         else if tmpl.startsWith "rendered:" then do
           let r ← decodeText (tmpl.drop 9).toString
           pure (fun _ => r)
         else none
-      let c := mkCfg (← findStyle style) flags render []
+      let c := mkCfg (← findStyle style) flags render (← decodeList bad)
       match createNewHeader c ⟨← decodeList lic, ← decodeList cpr, ← decodeList con⟩ with
       | .ok t => pure ("ok:" ++ encodeText t)
       | .error .commentCreate => pure "err:create"
@@ -52,6 +53,7 @@ def stepC07 (fields : List String) : Option String :=
           | some m =>
             if !Spec.styleReadable st m then ("s", false)
             else if !Spec.wfRequest Generated.endRe st m info then ("r", false)
+            else if !(info.lic.all c.parses) then ("p", false)     -- hparse (every generated expression parses)
             else ("+", true)
       let res := match createNewHeader c info with
         | .ok t => "ok:" ++ encodeText t
